@@ -13,7 +13,7 @@ import (
 )
 
 // SupPkg is the import path of the support package generated code binds to.
-const SupPkg = "verifharness/internal/sup"
+const SupPkg = "verifharness/sup"
 
 // Def is one operation or fragment definition.
 type Def struct {
